@@ -9,8 +9,8 @@ import (
 	erpc "github.com/henrylee2cn/erpc/v6"
 	"github.com/henrylee2cn/erpc/v6/plugin/auth"
 	"github.com/henrylee2cn/erpc/v6/plugin/ignorecase"
-	"github.com/henrylee2cn/erpc/v6/plugin/secure"
 	"github.com/henrylee2cn/erpc/v6/plugin/proxy"
+	"github.com/henrylee2cn/erpc/v6/plugin/secure"
 
 	"simrt"
 	"verif/simnet"
